@@ -407,6 +407,11 @@ impl Store {
 
     #[tracing::instrument(skip(self))]
     pub fn head(&self, topic: &str, context_id: Scru128Id) -> Option<Frame> {
+        // No stored topic contains the key delimiter; a prefix built from such a
+        // topic could only match index keys of other topics.
+        if topic.as_bytes().contains(&NULL_DELIMITER) {
+            return None;
+        }
         self.idx_topic
             .prefix(idx_topic_key_prefix(context_id, topic))
             .rev()
